@@ -4,6 +4,8 @@
 f2_0:
   ret
   call f6_0
+  mov wvsv1@GOTPCREL(%rip),%rax
+  mov wvsv0(%rip),%rax
   ret
 .section wvset0,"aw",@progbits
   .quad f6_0
